@@ -934,6 +934,9 @@ func (fi *funcInfo) rangeFactsSeen(seen map[string]bool, ls ...Lin) []Lin {
 					if paramNonNegative(par) {
 						out = append(out, atom(a))
 					}
+					if lo, hi, ok := paramConstRange(par); ok {
+						out = append(out, atom(a).addK(-lo), konst(hi).sub(atom(a)))
+					}
 				}
 				lo, hi := typeRange(v.Type())
 				if lo != nil {
@@ -1092,4 +1095,48 @@ func paramNonNegative(p *ssa.Parameter) bool {
 	}
 	paramNonNegCache[p] = 1
 	return true
+}
+
+// paramConstRange: every call site of the unexported function passes a constant.
+func paramConstRange(p *ssa.Parameter) (lo, hi int64, ok bool) {
+	fn := p.Parent()
+	if fn == nil || fn.Parent() != nil || exportedAPI(fn) || !inMod(fn) {
+		return 0, 0, false
+	}
+	idx := -1
+	for i, q := range fn.Params {
+		if q == p {
+			idx = i
+		}
+	}
+	n := 0
+	for _, caller := range feCtx.modFuncs {
+		for _, b := range caller.Blocks {
+			for _, ins := range b.Instrs {
+				for _, op := range ins.Operands(nil) {
+					if *op == ssa.Value(fn) {
+						if call, isCall := ins.(ssa.CallInstruction); !isCall || call.Common().Value != ssa.Value(fn) {
+							return 0, 0, false
+						}
+					}
+				}
+				call, isCall := ins.(ssa.CallInstruction)
+				if !isCall || call.Common().StaticCallee() != fn {
+					continue
+				}
+				k, isC := constInt(call.Common().Args[idx])
+				if !isC {
+					return 0, 0, false
+				}
+				if n == 0 || k < lo {
+					lo = k
+				}
+				if n == 0 || k > hi {
+					hi = k
+				}
+				n++
+			}
+		}
+	}
+	return lo, hi, n > 0
 }
